@@ -166,6 +166,15 @@ def _required_cfi_directives(
     if not displacement_map:
         return []
 
+    # An empty block has no instructions whose side effects its directives
+    # could describe, so removing it must not lose any of them.
+    if not block.size:
+        return [
+            directive
+            for _, directives in sorted(displacement_map.items())
+            for directive in directives
+        ]
+
     # We need to keep start/end proc directives and remember/restore state
     # directives, but we also want to drop anything between a balanced
     # start/end proc pair (including the start/end proc directives).
